@@ -3,6 +3,7 @@ import MosnVerif.Lemmas.StreamOnce
 import MosnVerif.Lemmas.PoolMuxSpec
 import MosnVerif.Lemmas.PoolH2Steps
 import MosnVerif.Lemmas.PoolWinWitness
+import MosnVerif.Lemmas.PoolMxWin
 /-!
 # C09 — upstream connection pools: exclusive leases, no leaks, no dirty reuse (property theorems only)
 
@@ -812,5 +813,48 @@ example : (MosnVerif.Model.PoolWin.step (MosnVerif.Model.PoolWin.run (MosnVerif.
       [.newStream .ok, .endStream 0 .localReset, .taskStep 0]) (.newStream .ok)).2 = .ok 1 := by decide
 
 end Win
+
+/-! ### ===== BEGIN mux6: multiplex pool, no lease on a go-away / closed client ===== -/
+section MxNoLease
+open MosnVerif.Model.PoolMxWin MosnVerif.Gen.PoolMux
+
+/-- **mux_no_lease_on_closing_partial** (multiplex NewStream; full statement: under every interleaving no stream is created
+on a client that received go-away or whose close handler ran — NOT proved globally: the state test and the creation of the
+stream are separate unlocked statements, a go-away / close between them is a window of the code as it is, see the example
+below; the stream created there ends by reset and is given back, `mux_request_ledger_exact_steps`).  Proved: (1) in the
+regenerated program the slot load, the nil test, the state test and the breaker test all precede the creation of the
+stream and every take; (2) in every state the state test lets a NewStream pass only on a client whose state word is
+`Connected` — a client whose OnGoAway wrote GoAway, or a recycled one (Connecting), is refused with ConnectionFailure;
+(3) the close handler's slot deletion removes a closed client that is still current, so a later slot load cannot find it. -/
+theorem mux_no_lease_on_closing_partial :
+    (progsOf .mux).nsPre = [.slotIdx, .loadSlot, .chkNil, .chkState, .chkBreaker] ∧
+    (progsOf .mux).nsPost = [.place, .listen, .incHost, .incCluster, .incRes] ∧
+    (∀ (pg : Progs) (led : Led) (b : Books) (t : Task) (c : Nat), t.c = some c →
+      (bookStmt pg led b t .chkState).2.2 ≠ .refuse → (b.client c).state = muxConnected) ∧
+    (∀ (pg : Progs) (led : Led) (b : Books) (t : Task), t.c = none → (bookStmt pg led b t .chkNil).2.2 = .refuse) ∧
+    (∀ (pg : Progs) (led : Led) (b : Books) (t : Task) (c : Nat), t.c = some c → (b.client c).state ≠ muxGoAway →
+      b.slots (b.client c).slot = some c → (bookStmt pg led b t .delSlotIfCurrent).1.slots (b.client c).slot = none) := by
+  refine ⟨by decide, by decide, ?_, ?_, ?_⟩
+  · intro pg led b t c hc h
+    simp only [bookStmt, hc] at h
+    split at h
+    · assumption
+    · exact absurd rfl h
+  · intro pg led b t hc; simp [bookStmt, hc]
+  · intro pg led b t c hc hs hslot
+    simp [bookStmt, hc, hs, hslot, Books.setSlot]
+
+-- go-away with a request in flight: the next NewStream on the slot is refused (cf), after CheckAndInit it goes to the successor
+example : (drain 64 (run (init .mux 1 0) [.connect 0 true, .newStream 0 true, .taskStep 0, .taskStep 0, .taskStep 0,
+    .taskStep 0, .taskStep 0, .taskStep 0, .taskStep 0, .taskStep 0, .taskStep 0, .taskStep 0, .goAway 0, .taskStep 1, .taskStep 1,
+    .taskStep 1, .newStream 0 true])).bk.lastRes = .connFail := by decide
+example : (drain 64 (run (drain 64 (run (init .mux 1 0) [.connect 0 true, .newStream 0 true, .goAway 0]))
+    [.connect 0 true, .newStream 0 true])).bk.lastRes = .ok 1 := by decide
+-- the window of the code as it is: go-away delivered between the state test and the creation of the stream
+example : (drain 64 (run (init .mux 1 0) [.connect 0 true, .newStream 0 true, .taskStep 0, .taskStep 0, .taskStep 0,
+    .taskStep 0, .goAway 0, .taskStep 1, .taskStep 1])).led.streams = [0] := by decide
+
+end MxNoLease
+/-! ### ===== END mux6 ===== -/
 
 end MosnVerif.Props.C09
